@@ -681,7 +681,7 @@ impl Prop for OpsPart {
         "ops"
     }
     fn cases(&self, tier: Tier) -> u64 {
-        tier.pick(200_000, 4_500_000)
+        tier.pick(200_000, 1_500_000)
     }
     fn strategy(&self, tier: Tier) -> BoxedStrategy<Case> {
         let p = Profile::all();
@@ -842,7 +842,7 @@ impl Prop for ExchangePart {
         "exchange"
     }
     fn cases(&self, tier: Tier) -> u64 {
-        tier.pick(150_000, 3_000_000)
+        tier.pick(150_000, 1_000_000)
     }
     fn strategy(&self, tier: Tier) -> BoxedStrategy<XCase> {
         let p = Profile::all();
@@ -1166,7 +1166,7 @@ impl Prop for AuxPart {
         "aux"
     }
     fn cases(&self, tier: Tier) -> u64 {
-        tier.pick(150_000, 3_000_000)
+        tier.pick(150_000, 1_000_000)
     }
     fn strategy(&self, tier: Tier) -> BoxedStrategy<ACase> {
         let p = Profile::all();
@@ -1905,7 +1905,7 @@ impl Prop for EventsPart {
         "events"
     }
     fn cases(&self, tier: Tier) -> u64 {
-        tier.pick(150_000, 3_000_000)
+        tier.pick(150_000, 1_000_000)
     }
     fn strategy(&self, tier: Tier) -> BoxedStrategy<Case> {
         OpsPart.strategy(tier)
